@@ -36,7 +36,7 @@ CHECKS = {
               "models, hash-colliding twins handled in the same process, and a stream of nested negations; oracle: brute-force "
               "enumeration of every in-box integer point of the real matrix, both inclusions, soundness demanded for solver-safe "
               "models and for every expression of the safe grammar."),
-        note="Enumeration only for boxes up to 20000 (quick) / 300000 (thorough) points; auxiliary columns free. expr_sound keeps Free01 (no sub-proposition pre-fixed) as a hypothesis, as the statement does.",
+        note="Enumeration only for boxes up to 20000 (quick) / 300000 (thorough) points; auxiliary columns free. For expressions of the safe grammar 'no sub-proposition pre-fixed' is proved too (Ast.build_free01), so expr_sound has no such hypothesis.",
         technique="Lean 4 theorem (mutual structural induction, omega) + per-run model/code differential correspondence",
         ref="§4 C02"),
     "C04": dict(
